@@ -22,6 +22,9 @@ def wide(isa, fam):
     return dc.reg_name(isa, fam, None, wide=True)
 
 
+_EXT = [None]   # "sxtw" / "uxtw" while a program with extended-register indices is generated (AArch64)
+
+
 def memtext(isa, b, x, s, d, mode=None, imm=0):
     """mode: None | 'pre' | 'post' (AArch64 only)."""
     if isa == "x86":
@@ -35,6 +38,12 @@ def memtext(isa, b, x, s, d, mode=None, imm=0):
         return "[%s], #%d" % (wide(isa, b), imm)
     if mode == "pre":
         return "[%s, #%d]!" % (wide(isa, b), imm)
+    if x and _EXT[0]:
+        # extended-register index: the 32-bit view of the index register, sign/zero-extended and shifted; every access of
+        # one program uses the same extension, so two references are the same address iff base, index and shift agree
+        sh = {1: 0, 2: 1, 4: 2, 8: 3}[s]
+        w = "w" + wide(isa, x)[1:]
+        return "[%s, %s, %s #%d]" % (wide(isa, b), w, _EXT[0], sh) if sh else "[%s, %s, %s]" % (wide(isa, b), w, _EXT[0])
     if x:
         sh = {1: 0, 2: 1, 4: 2, 8: 3}[s]
         return "[%s, %s, lsl #%d]" % (wide(isa, b), wide(isa, x), sh) if sh else "[%s, %s]" % (wide(isa, b), wide(isa, x))
@@ -171,6 +180,7 @@ def gen_program(isa, fl, rnd, max_mid=4):
     ptr = rnd.sample(PTR[isa], 3)
     b, b2, xr = ptr
     use_index = rnd.random() < 0.3
+    _EXT[0] = rnd.choice(["sxtw", "uxtw"]) if (isa == "aarch64" and use_index and rnd.random() < 0.35) else None
     s = rnd.choice([1, 2, 4, 8]) if use_index else 1
     disp = lambda: rnd.choice([-16, -8, 0, 0, 8, 16])
     instrs = []
@@ -222,6 +232,14 @@ def gen_program(isa, fl, rnd, max_mid=4):
             ld_mode = rnd.choice(["pre", "post"])
         ldd = 0 if (isa == "aarch64" and lx) else disp()
         instrs.append(load(isa, fl, rnd.choice(DATA[isa]), lb, lx, ls if lx else 1, ldd, ld_mode, rnd.choice([8, -8])))
+    if isa == "x86" and rnd.random() < 0.12:
+        # register names are case-insensitive for the assembler: one pointer register written in upper case
+        # throughout the program (as operand and inside memory references alike)
+        name = "%" + wide(isa, rnd.choice(ptr))
+        for ins in instrs:
+            ins["text"] = ins["text"].replace(name + ",", name.upper() + ",").replace(name + ")", name.upper() + ")")
+            if ins["text"].endswith(name):
+                ins["text"] = ins["text"][:-len(name)] + name.upper()
     return instrs
 
 
